@@ -10,5 +10,12 @@ META = {
  'C03': dict(technique='runtime monitoring: structural well-formedness predicate + ASan over factorizations from every route',
              level_text='discrete predicate over SCformat/NCformat exactly as the consuming routines index them, on every factorization returned by ?gstrf, ?gssv, ?gssvx (malloc and caller workspace) and ?gsisx',
              level_note='trusted: the predicate transcription; ASan as witness that all indices read lie inside the allocations'),
+
+ 'C04': dict(technique='runtime monitoring: singular-return oracle with FE_INEXACT exactness witness + ASan over constructed exactly singular inputs',
+             level_text='on every info in [1,n] return: stored candidates of the reported column exactly zero, earlier pivots nonzero, leading-block factor identity, B/X untouched, no solve; "reported exactly when" decided only on executions witnessed exact (FE_INEXACT clear) or rounding-immune (empty row/column)',
+             level_note='trusted: FE_INEXACT as exactness witness, construction of exactly singular / nonsingular inputs; crashes after a zero pivot are the listed finding F6'),
+ 'C05': dict(technique='runtime monitoring: scaled-system residual oracle + bitwise A/B mutation snapshots + ASan/UBSan over generated ?gssvx executions',
+             level_text='A_after = diag(R) A diag(C) per equed bitwise (any association), B_after per the documented table bitwise, indices and padding untouched, residual of X in the scaled system against the factor-derived bound; Trans x Equil x refine x NC/NR x orderings, bundled and vendor BLAS',
+             level_note='trusted: long double reference; refined X judged only under the Skeel/conditioning gate (stated in evidence as skipped_by_rule)'),
 }
 NOT_APPLICABLE = [dict(property_id=p, reason='check not registered yet in this revision (under construction; see DESIGN.md section 5)') for p in _ALL if p not in META]
